@@ -56,6 +56,30 @@ func genC06(t *rapid.T) c06Case {
 	if rapid.IntRange(0, 2).Draw(t, "late-persist") == 0 {
 		c.Persist = rapid.IntRange(1, 4).Draw(t, "persist")
 	}
+	if rapid.IntRange(0, 11).Draw(t, "directed") == 0 {
+		// a snapshot that is persisted only after several further operations on
+		// one partition (leader changes, ISR changes) have been applied, then a
+		// restart that restores it and replays those operations: the random
+		// alphabet rarely puts two changes of one partition into that window
+		c.Ops = []c06Op{{Op: "create", Parts: rapid.IntRange(1, 2).Draw(t, "dparts")}}
+		pre := rapid.IntRange(0, 2).Draw(t, "dpre")
+		kinds := []string{"leader", "leader", "shrink", "expand"}
+		rep := 0
+		for i := 0; i < pre; i++ {
+			rep++
+			c.Ops = append(c.Ops, c06Op{Op: rapid.SampledFrom(kinds).Draw(t, "dk0"), P: []int{0}, Rep: rep % 3})
+		}
+		c.Snap = len(c.Ops)
+		k := rapid.IntRange(2, 4).Draw(t, "dk")
+		for i := 0; i < k; i++ {
+			rep++
+			c.Ops = append(c.Ops, c06Op{Op: rapid.SampledFrom(kinds).Draw(t, "dk1"), P: []int{0}, Rep: rep % 3})
+		}
+		c.Ops = append(c.Ops, c06Op{Op: "create", S: 1, Parts: 1})
+		c.Persist = rapid.IntRange(2, 4).Draw(t, "dpersist")
+		c.Restart = len(c.Ops) - c.Snap // the end of the history if every operation resolves; inside the window otherwise
+		return c
+	}
 	n := rapid.IntRange(3, 40).Draw(t, "nops")
 	for i := 0; i < n; i++ {
 		op := c06Op{S: rapid.IntRange(0, 2).Draw(t, "s")}
@@ -100,6 +124,9 @@ type c06MPart struct {
 	isr    map[string]bool
 	leader string
 	paused bool
+	// leader epoch: the index of the operation that made the leader the leader
+	// (ISR changes name it; the FSM drops a change that names another pair)
+	leaderEpoch uint64
 }
 
 type c06MStream struct {
@@ -154,7 +181,7 @@ func (m *c06Model) resolve(op c06Op, index uint64) (*proto.RaftLog, string) {
 		for i := 0; i < op.Parts; i++ {
 			ps.Partitions = append(ps.Partitions, &proto.Partition{Subject: ps.Subject, Stream: name, Id: int32(i), ReplicationFactor: 3,
 				Replicas: append([]string{}, c06Replicas...), Isr: append([]string{}, c06Replicas...), Leader: "x"})
-			ms.parts = append(ms.parts, &c06MPart{isr: map[string]bool{"x": true, "y": true, "z": true}, leader: "x"})
+			ms.parts = append(ms.parts, &c06MPart{isr: map[string]bool{"x": true, "y": true, "z": true}, leader: "x", leaderEpoch: index})
 		}
 		m.streams[name] = ms
 		return &proto.RaftLog{Op: proto.Op_CREATE_STREAM, CreateStreamOp: &proto.CreateStreamOp{Stream: ps}}, "create"
@@ -220,18 +247,19 @@ func (m *c06Model) resolve(op c06Op, index uint64) (*proto.RaftLog, string) {
 				return nil, ""
 			}
 			delete(p.isr, rep)
-			return &proto.RaftLog{Op: proto.Op_SHRINK_ISR, ShrinkISROp: &proto.ShrinkISROp{Stream: name, Partition: id, ReplicaToRemove: rep, Leader: p.leader, LeaderEpoch: 0}}, "shrink"
+			return &proto.RaftLog{Op: proto.Op_SHRINK_ISR, ShrinkISROp: &proto.ShrinkISROp{Stream: name, Partition: id, ReplicaToRemove: rep, Leader: p.leader, LeaderEpoch: p.leaderEpoch}}, "shrink"
 		case "expand": // a replica that is not in the ISR
 			if p.isr[rep] {
 				return nil, ""
 			}
 			p.isr[rep] = true
-			return &proto.RaftLog{Op: proto.Op_EXPAND_ISR, ExpandISROp: &proto.ExpandISROp{Stream: name, Partition: id, ReplicaToAdd: rep, Leader: p.leader}}, "expand"
+			return &proto.RaftLog{Op: proto.Op_EXPAND_ISR, ExpandISROp: &proto.ExpandISROp{Stream: name, Partition: id, ReplicaToAdd: rep, Leader: p.leader, LeaderEpoch: p.leaderEpoch}}, "expand"
 		default: // new leader from the ISR, not the current one
 			if rep == p.leader || !p.isr[rep] {
 				return nil, ""
 			}
 			p.leader = rep
+			p.leaderEpoch = index
 			return &proto.RaftLog{Op: proto.Op_CHANGE_LEADER, ChangeLeaderOp: &proto.ChangeLeaderOp{Stream: name, Partition: id, Leader: rep}}, "leader"
 		}
 	case "join":
@@ -609,6 +637,28 @@ func runC06(c c06Case, o *vfutil.Obs) *vfutil.Failure {
 				if strings.HasPrefix(k, op.DeleteStreamOp.Stream+"/") {
 					delete(expect, k)
 				}
+			}
+		}
+	}
+	// (tripwire for the harness itself: the generator's idea of leaders and
+	// in-sync sets, from which it builds the operations, is what the servers
+	// hold - an operation the FSM drops would silently thin out the histories)
+	for name, ms := range model.streams {
+		for id, mp := range ms.parts {
+			p := A.metadata.GetPartition(name, int32(id))
+			if p == nil {
+				continue
+			}
+			l, _ := p.GetLeader()
+			isr := p.GetISR()
+			sort.Strings(isr)
+			var want []string
+			for r := range mp.isr {
+				want = append(want, r)
+			}
+			sort.Strings(want)
+			if l != mp.leader || fmt.Sprint(isr) != fmt.Sprint(want) {
+				return vfutil.Failf("harness/model-disagrees", "history %s: partition %s/%d has leader %s and ISR %v, the generator's model says %s and %v", hist, name, id, l, isr, mp.leader, want)
 			}
 		}
 	}
